@@ -38,6 +38,10 @@ def base_form(rng, i):
     cfg = common.rich_cfg(rng, p_bind_extra=0, p_instance_extra=0, p_body_extra=0, n_rows=rng.choice([(2, 6), (4, 14)]),
                           p_choice_extra=0.5, p_default=0.4)
     f = gen.gen_form(rng, cfg)
+    if i % 4 == 1:
+        # numbers that need all the digits a double can carry (the spreadsheets store them as numbers; read back they spell the same digits)
+        f.survey.append(Row("q", "decimal", "longnum", {"label": "n", "default": rng.choice(["0.3333333333333333", "12.34567890123456", "0.1", "2.718281828459045", "123456.789012345"])}))
+        f.survey.append(Row("q", "integer", "longint", {"label": "i", "default": rng.choice(["1234567890123456", "2024010112", "9007199254740992", "123456789012"])}))
     if i % 5 == 0:
         f.external_choices = [{"list_name": "ext", "name": f"e{k}", "label": f"E {k}", "grp": f"g{k % 2}"} for k in range(3)]
         f.survey.append(Row("q", "text", "extsel_src", {"label": "src"}))
@@ -65,7 +69,7 @@ def typify(sheets, rng):
                 if not isinstance(c, str):
                     continue
                 x = rng.random()
-                if c.isdigit() and len(c) < 12 and not c.startswith("0"):
+                if c.isdigit() and not c.startswith("0") and (len(c) < 12 or (len(c) < 17 and int(float(c)) == int(c))):
                     if x < 0.4:
                         rr[ci] = int(c)
                     elif x < 0.7:
@@ -322,6 +326,19 @@ def run_shard(ctx):
                     if d:
                         ctx.viol(f"differs:{fmt}:content:blank-rows-other-sheets:{d[0]}", f"[{fmt}] blank spacer rows on entities/external_choices/settings change the result ({d[0]}): {d[1]}"[:900],
                                  common.witness(form, fmt=fmt, channel="auto", variant="blank-rows-other-sheets", sheets=_jsonable(bs)))
+        # (2i) CSV with the sheet name in the first cell of the header row (no row of its own), for all sheets or only some
+        if i % 6 == 4 and md_representable(sheets):
+            refs = {False: drive.call_convert(render.to_dict(sheets), **form.args), True: drive.call_convert(render.to_dict(sheets, fallback_form_name="stemname"), **form.args)}
+            for compact in (True, {"settings", "choices"}, {"survey"}):
+                ch = rng.choice(["str", "bytes", "path"])
+                o = drive.convert_sheets(sheets, fmt="csv", channel=ch, args=dict(form.args), render_kw={"compact": compact})
+                ctx.ctr("renderings_compared")
+                ctx.ctr("compact_csv_cases")
+                ctx.case(sig=f"{sig}|csv|compact|{compact is True}|{ch}")
+                d = outcome_diff(refs[ch == "path"], o)
+                if d:
+                    ctx.viol(f"differs:csv:content:compact-layout:{d[0]}", f"[csv/{ch}, sheet name on the header row: {compact}] differs from dict reference in {d[0]}: {d[1]}"[:900],
+                             common.witness(form, fmt="csv", channel=ch, variant="compact-layout", sheets=_jsonable(sheets)))
         # (2h) text containers saved with a UTF-8 signature (what spreadsheet programs write for "CSV UTF-8"): an encoding mark, not workbook content
         if i % 3 == 1 and md_representable(sheets):
             import tempfile
